@@ -248,6 +248,9 @@ def opGEN (args res : List String) : Findings := Id.run do
   let mut it : Spec.Iter := ⟨legalMoves p, ~~~0#64⟩
   let mut started := false        -- a move was yielded since the last mask change
   let mut inScope := valid        -- the oracle judges only programs inside the property's scope
+  let mut segImpl : List Move := []
+  let mut segModel : List Move := []
+  let mut orderDiff := false
   let mut i := 0
   for (op, out) in prog.zip outs do
     i := i + 1
@@ -256,6 +259,9 @@ def opGEN (args res : List String) : Findings := Id.run do
     match tag with
     | "K" =>
       let some mask := bb? arg | return fs.push ⟨'E', "parse", s!"mask {arg}"⟩
+      if !sameMoveSet segImpl segModel then
+        fs := fs.push (fM "gen" s!"before step {i}: moves yielded under the previous mask differ: impl={showMoveList (sortMoves segImpl)} model={showMoveList (sortMoves segModel)}")
+      segImpl := []; segModel := []
       g := g.setIteratorMask mask
       if inScope ∧ started ∧ !it.exhausted then inScope := false   -- mask changed before exhaustion: out of scope
       it := it.setMask mask; started := false
@@ -263,7 +269,13 @@ def opGEN (args res : List String) : Findings := Id.run do
       let (r, g') := g.next
       g := g'
       let model := match r with | some m => showMv m | none => "-"
-      if out != model then fs := fs.push (fM "gen" s!"step {i} next: impl={out} model={model}")
+      -- the contract is about WHICH moves are yielded under a mask, not their order: the two yield
+      -- sequences are compared as multisets when the mask changes / the program ends; here only
+      -- "a move vs. nothing"
+      if (out == "-") != (model == "-") then fs := fs.push (fM "gen" s!"step {i} next: impl={out} model={model}")
+      else if out != model then orderDiff := true
+      match r with | some m => segModel := m :: segModel | none => pure ()
+      match move? out with | some m => segImpl := m :: segImpl | none => pure ()
       if inScope then
         if out == "-" then
           if !it.exhausted then fs := fs.push (fO "gen" s!"step {i}: next() gave None but {it.len} moves remain under the mask")
@@ -284,9 +296,9 @@ def opGEN (args res : List String) : Findings := Id.run do
       let (ms, g') := g.drain
       g := g'
       let some implMs := moveList? out | return fs.push ⟨'E', "parse", s!"list {out}"⟩
-      if implMs != ms then
-        if sameMoveSet implMs ms then fs := fs.push ⟨'I', "moveorder", s!"step {i}"⟩
-        else fs := fs.push (fM "gen" s!"step {i} drain: impl={out} model={showMoveList ms}")
+      segModel := ms.reverse ++ segModel
+      segImpl := implMs.reverse ++ segImpl
+      if implMs != ms then orderDiff := true
       if inScope then
         if !sameMoveSet implMs it.under then
           fs := fs.push (fO "gen" s!"step {i}: drained {out}, remaining under the mask are {showMoveList (sortMoves it.under)}")
@@ -308,6 +320,9 @@ def opGEN (args res : List String) : Findings := Id.run do
       if started ∧ !it.exhausted then inScope := false
       it := it.removeMask mask
     | _ => fs := fs.push ⟨'E', "parse", s!"op {op}"⟩
+  if !sameMoveSet segImpl segModel then
+    fs := fs.push (fM "gen" s!"moves yielded under the last mask differ: impl={showMoveList (sortMoves segImpl)} model={showMoveList (sortMoves segModel)}")
+  if orderDiff then fs := fs.push ⟨'I', "moveorder", "same moves, different yield order"⟩
   return fs
 
 /-! ### GAME (C10, C11) -/
